@@ -11,7 +11,7 @@ Definition pipe_map (k : nat) : nat := match k with 1 => 2 | 2 => 1 | 3 => 4 | _
 Definition keep2 (k : nat) : bool := negb (Nat.eqb k 2).
 
 Ltac red_entry D3 D :=
-  unfold el; cbn [nth Nat.mul Nat.add Nat.ltb Nat.leb Nat.eqb andb negb id_map pipe_map keep2];
+  unfold el, id_map, pipe_map, keep2; cbn [Nat.mul Nat.add Nat.ltb Nat.leb Nat.eqb andb negb];
   unfold D3, D; cbv zeta; cbn [nth].
 
 Section IsoReductions.
